@@ -18,15 +18,36 @@ def proof_stage(rep, pid):
     """lake build + audit.  Returns (ok, text describing what broke)."""
     reg = common.registry().get(pid, {})
     theorems = reg.get("theorems", [])
-    ok, log = common.lake_build()
+    targets = reg.get("targets", [])
     broken = []
+    pre = getattr(importlib.import_module("props." + pid), "pre_build", None)
+    if pre:
+        try:
+            pre(rep)
+        except Exception as e:
+            broken.append("translator failed (source pattern no longer recognised): %r" % (e,))
+    ok, log = common.lake_build()
     if not ok:
         tail = "\n".join(l for l in log.split("\n") if "error" in l.lower())[:3000]
         broken.append("lake build failed:\n" + tail)
+    ok_t = True
+    if ok and targets:
+        ok_t, log_t = common.lake_build(targets)
+        if not ok_t:
+            tail = "\n".join(l for l in log_t.split("\n") if "error" in l.lower() or "is false" in l)[:3000]
+            broken.append("lake build of %s failed (theorems over tables regenerated from /repo):\n%s" % (" ".join(targets), tail))
     hits = common.grep_forbidden()
     if hits:
         broken.append("forbidden tokens in Lean sources: " + "; ".join("%s:%d %s" % h for h in hits[:5]))
-    aud = common.audit(theorems) if ok else {t: {"ok": False, "axioms": [], "msg": "not built"} for t in theorems}
+    if ok and not ok_t:
+        # audit what does build; theorems of the failing modules count as not discharged
+        aud = common.audit([t for t in theorems if not t.startswith("Tbfmm.Generated.")])
+        for t in theorems:
+            aud.setdefault(t, {"ok": False, "axioms": [], "msg": "its module does not build"})
+    elif ok:
+        aud = common.audit(theorems, targets)
+    else:
+        aud = {t: {"ok": False, "axioms": [], "msg": "not built"} for t in theorems}
     discharged = [t for t in theorems if aud[t]["ok"]]
     for t in theorems:
         if not aud[t]["ok"]:
